@@ -16,6 +16,15 @@ use std::{
 
 pub const VERIF_ROOT: &str = "/verif";
 
+/// Root of the verification tree: `/verif`, or `PDBV_ROOT` for a development copy (evidence,
+/// replays and known findings are then read / written there).
+pub fn verif_root() -> PathBuf {
+	match std::env::var("PDBV_ROOT") {
+		Ok(p) if !p.is_empty() => PathBuf::from(p),
+		_ => PathBuf::from(VERIF_ROOT),
+	}
+}
+
 #[derive(Clone, Copy, Debug, PartialEq, Eq)]
 pub enum Tier {
 	Quick,
@@ -339,7 +348,7 @@ pub struct Known {
 }
 
 pub fn load_known() -> Vec<Known> {
-	let p = Path::new(VERIF_ROOT).join("known_findings.json");
+	let p = verif_root().join("known_findings.json");
 	let s = match std::fs::read_to_string(&p) {
 		Ok(s) => s,
 		Err(_) => return vec![],
@@ -682,7 +691,7 @@ pub fn main_entry(
 	}
 
 	// replays
-	let replay_dir = Path::new(VERIF_ROOT).join("replays");
+	let replay_dir = verif_root().join("replays");
 	let _ = std::fs::create_dir_all(&replay_dir);
 	let mut vio_lines = vec![];
 	let mut seen_sigs = BTreeSet::new();
@@ -751,7 +760,7 @@ pub fn main_entry(
 				"held_on_observed"
 			}),
 		);
-	let evdir = Path::new(VERIF_ROOT).join("evidence");
+	let evdir = verif_root().join("evidence");
 	let _ = std::fs::create_dir_all(&evdir);
 	let evpath = evdir.join(format!("{}.json", spec.prop));
 	// A property decided by two engines (C03): the second phase of the same check invocation
